@@ -65,6 +65,8 @@ func main() {
 	switch os.Args[1] {
 	case "check":
 		os.Exit(cmdCheck(os.Args[2:]))
+	case "replay":
+		os.Exit(cmdReplay(os.Args[2:]))
 	case "fn":
 		os.Exit(cmdFn(os.Args[2:]))
 	case "list":
@@ -653,4 +655,130 @@ func runBounded(repo, vd string, b *boundedCfg, tier string) (map[string]interfa
 		}
 	}
 	return nil, fmt.Errorf("the harness produced no result: %s", truncate(string(out), 600))
+}
+
+// cmdReplay re-runs what a replay file records against the current tree:
+//   - a concrete input (generated test): the test is run again on the real code;
+//   - a bounded-harness class: the harness is run again;
+//   - an obligation without an input: the function is verified again and the
+//     named obligation's verdict is reported.
+//
+// Exit 1 if the violation shows again, 0 if it does not, 2 on usage errors.
+func cmdReplay(args []string) int {
+	fs := flag.NewFlagSet("replay", flag.ExitOnError)
+	repo := fs.String("repo", "/repo", "repository root")
+	prop := fs.String("prop", "", "property")
+	file := fs.String("file", "", "replay file written by a check")
+	fs.Parse(args)
+	b, err := os.ReadFile(*file)
+	if err != nil {
+		fmt.Fprintln(os.Stderr, err)
+		return 2
+	}
+	var rec map[string]interface{}
+	if err := json.Unmarshal(b, &rec); err != nil {
+		fmt.Fprintln(os.Stderr, err)
+		return 2
+	}
+	if p, _ := rec["property"].(string); *prop == "" {
+		*prop = p
+	}
+	vd := verifDir()
+	obl, _ := rec["obligation"].(string)
+	fmt.Printf("replay of %s (property %s)\n", obl, *prop)
+	if strings.HasPrefix(obl, "bounded:") {
+		cfg := propCfgs[*prop]
+		if cfg.Bounded == nil {
+			fmt.Println("no bounded harness is registered for this property")
+			return 2
+		}
+		res, err := runBounded(*repo, vd, cfg.Bounded, "quick")
+		if err != nil {
+			fmt.Println("harness error:", err)
+			return 2
+		}
+		class := strings.TrimPrefix(obl, "bounded:")
+		classes, _ := res["classes"].(map[string]interface{})
+		fmt.Printf("harness result: %v cases, classes %v\n", res["cases"], classes)
+		if n, ok := classes[class]; ok {
+			fmt.Printf("REPRODUCED: class %s occurs for %v inputs on the current tree\n", class, n)
+			return 1
+		}
+		fmt.Printf("not reproduced: class %s does not occur on the current tree\n", class)
+		return 0
+	}
+	P, err := loadProgram(*repo, filepath.Join(vd, "stubs"))
+	if err != nil {
+		fmt.Fprintln(os.Stderr, err)
+		return 2
+	}
+	if rp, ok := rec["replay"].(map[string]interface{}); ok {
+		if src, _ := rp["test_source"].(string); src != "" {
+			pkgPath, _ := rp["package_path"].(string)
+			if pkgPath == "" {
+				if fn := P.Funcs[fmt.Sprint(rec["function"])]; fn != nil && fn.Pkg != nil {
+					pkgPath = fn.Pkg.Pkg.Path()
+				}
+			}
+			out, _ := runOverlayTest(P, pkgPath, src)
+			fmt.Println(truncate(out, 3000))
+			panicked := strings.Contains(out, "VCGO-PANIC")
+			if rec["kind"] == "safety" {
+				if panicked {
+					fmt.Println("REPRODUCED: the real code panics on the recorded input")
+					return 1
+				}
+				fmt.Println("not reproduced: no panic on the recorded input")
+				return 0
+			}
+			fmt.Println("the recorded input was run on the current tree (results above); compare with the clause:", rec["clause"])
+		}
+	}
+	// the obligation itself
+	key, _ := rec["function"].(string)
+	if strings.HasPrefix(obl, "subset:") || strings.HasPrefix(obl, "pin:") || key == "" {
+		fmt.Println("this record has no obligation that can be re-decided on its own; run the property's check")
+		return 2
+	}
+	ff, _ := loadFindings(filepath.Join(vd, "known_findings.json"))
+	var relevant []*Finding
+	if ff != nil {
+		for _, f := range ff.Findings {
+			if f.Property == *prop {
+				relevant = append(relevant, f)
+			}
+		}
+	}
+	cfg := propCfgs[*prop]
+	r := P.verifyFunction(key, VerifyOpts{Prop: *prop, Safety: cfg.Safety || rec["kind"] == "safety", AllowFnSafety: true, SafetyTags: []string{*prop}, Findings: relevant})
+	if r.Err != nil {
+		fmt.Println("the function cannot be translated:", r.Err)
+		return 1
+	}
+	var pick []*Obligation
+	for _, o := range r.Obls {
+		if o.Name == obl {
+			pick = append(pick, o)
+		}
+	}
+	if len(pick) == 0 {
+		fmt.Println("the obligation does not exist on the current tree (contract or code changed)")
+		return 2
+	}
+	dir, _ := os.MkdirTemp("", "vcgo")
+	defer os.RemoveAll(dir)
+	solveAll(pick, SolveOpts{Dir: dir, Stage1: time.Second, Stage2: 60 * time.Second, NoBatch: true})
+	rc := 0
+	for _, o := range pick {
+		fmt.Printf("%s %s: %s (%s, %.1fs)\n", o.Fn, o.Name, o.Result, o.Solver, o.Secs)
+		if o.Result != "unsat" {
+			rc = 1
+		}
+	}
+	if rc == 1 {
+		fmt.Println("REPRODUCED: the obligation is still not discharged on the current tree")
+	} else {
+		fmt.Println("not reproduced: the obligation is discharged on the current tree")
+	}
+	return rc
 }
